@@ -22,7 +22,7 @@ def shards(tier):
 
 
 def required_classes(tier):
-    return ["xmd:valid", "xmd:dst>255", "xmd:ell>255", "xmd:len=0", "h2f:FQ", "h2f:FQ2"] + ["xmd:hash=" + h for h in HASHES]
+    return ["xmd:len-from-literal", "xmd:valid", "xmd:dst>255", "xmd:ell>255", "xmd:len=0", "h2f:FQ", "h2f:FQ2"] + ["xmd:hash=" + h for h in HASHES]
 
 
 MSG_LENS_Q = [0, 1, 55, 56, 63, 64, 65, 119, 128, 1024]
@@ -68,6 +68,27 @@ def run(rec):
                     rec.case(cls, ("xmd", msg, dst, ol, hname), sample={"fn": "expand_message_xmd", "msg_len": ml, "dst_len": dl, "len_in_bytes": ol, "hash": hname})
                     rec.case("xmd:hash=" + hname, None, nontrivial=False)
                     call(hm.expand_message_xmd, msg, dst, ol, H)
+    # message / output lengths taken from integer literals in the module's own source (chunk sizes, thresholds), with their
+    # neighbours and their roundings to each hash function's block and digest size
+    from .common import harvest_int_literals
+    lits = [v for v in harvest_int_literals(["py_ecc.bls.hash", "py_ecc.bls.hash_to_curve"], 2, 4 * 10 ** 6)]
+    rec.notes.setdefault("integer_literals_harvested", lits[:40])
+    for hname, H in HASHES.items():
+        bs, ds = H().block_size, H().digest_size
+        lens = set()
+        for v in lits:
+            for w in (v - 1, v, v + 1, v - v % bs, v - v % bs + bs, v - v % ds, 2 * (v - v % bs), v - bs, v + bs):
+                if 0 <= w <= 4 * 10 ** 6:
+                    lens.add(w)
+        for ml in sorted(lens):
+            i += 1
+            if not rec.mine(i):
+                continue
+            rec.case("xmd:len-from-literal", ("xmdlit", hname, ml), sample={"fn": "expand_message_xmd", "msg_len": ml, "hash": hname} if ml > 300 else None)
+            msg = rng.randbytes(ml) if ml < 70000 else (rng.randbytes(4096) * (ml // 4096 + 1))[:ml]
+            call(hm.expand_message_xmd, msg, b"QUUX-V01-CS02-with-expander", rng.choice([32, 96, 2 * ds + 1]), H)
+            if ml <= 255 * ds:
+                call(hm.expand_message_xmd, b"abc", b"dst", ml, H)
     # RFC-style fixed DSTs / printable messages too (realistic shape)
     for j in range(40 if quick else 400):
         i += 1
